@@ -91,6 +91,17 @@ async def run_read(chunks, n, exact, enc):
     return out
 
 
+def guarded(loop, coro):
+    """run one case: a hang (all data and EOF were delivered up front, so the reader must finish) or an exception other
+    than IncompleteReadError escaping the reader is a VIOLATION with this input, never a harness crash"""
+    try:
+        return loop.run_until_complete(asyncio.wait_for(coro, 5)), None
+    except asyncio.TimeoutError:
+        return None, 'reader still blocked 5 s after all data and EOF were delivered'
+    except Exception as e:           # noqa: the code under test may raise anything
+        return None, 'unexpected exception ' + repr(e)
+
+
 def expected_until(data, seps):
     out, rest = [], data
     while True:
@@ -117,7 +128,8 @@ def main():
                 data = conv(raw)
                 for chunks in chunkings(data):
                     if len(viol) >= 5:
-                        break
+                        print(json.dumps({'cases': cases, 'violations': viol[:5]}))
+                        return
                     for seps in seplists:
                         sl = [conv(x) for x in seps]
                         exp = expected_until(data, sl)
@@ -126,14 +138,27 @@ def main():
                                 ('pattern', re.compile(conv(b'|').join(re.escape(x) for x in sl)),
                                  {'max_separator_len': max(len(x) for x in sl)})):
                             cases += 1
-                            got = loop.run_until_complete(run_until(chunks, sepobj, kw, enc))
+                            got, why = guarded(loop, run_until(chunks, sepobj, kw, enc))
+                            if why is not None:
+                                viol.append({'kind': 'readuntil-' + label, 'encoding': enc, 'chunks': repr(chunks),
+                                             'separators': repr(sl), 'got': why, 'expected': repr(exp)})
+                                continue
                             if got != exp:
                                 viol.append({'kind': 'readuntil-' + label, 'encoding': enc, 'chunks': repr(chunks),
                                              'separators': repr(sl), 'got': repr(got), 'expected': repr(exp)})
+                    cases += 1
+                    got, why = guarded(loop, run_read(chunks, -1, False, enc))
+                    if why is not None or type(data)().join(r for _t, r in got) != data or got[0] != ('ok', data):
+                        viol.append({'kind': 'read-to-eof', 'encoding': enc, 'chunks': repr(chunks),
+                                     'got': why or repr(got)})
                     for k in (1, 2, 3):
                         for exact in (False, True):
                             cases += 1
-                            got = loop.run_until_complete(run_read(chunks, k, exact, enc))
+                            got, why = guarded(loop, run_read(chunks, k, exact, enc))
+                            if why is not None:
+                                viol.append({'kind': 'read' + ('exactly' if exact else ''), 'encoding': enc, 'n': k,
+                                             'chunks': repr(chunks), 'got': why})
+                                continue
                             joined = type(data)().join(r for _t, r in got)
                             ok = joined == data
                             for t, r in got[:-1]:
